@@ -470,6 +470,7 @@ type Req struct {
 	Scheme             string      // h2 only; default "https"
 	Lines              [][2]string // extra header lines in order (names as written; lower-cased for h2)
 	Body               []byte
+	NoAuthority        bool // h2 only: no :authority pseudo-header, the host travels in a "host" field (RFC 9113 section 8.3.1)
 }
 
 // SendH1 writes the request as HTTP/1.1 text (Content-Length framing when there is a body).
@@ -507,6 +508,9 @@ func (c *Client) SendH2(stream uint32, r Req) {
 		sch = "https"
 	}
 	fs := []h2wire.HF{{Name: ":method", Value: m}, {Name: ":scheme", Value: sch}, {Name: ":authority", Value: r.Host}, {Name: ":path", Value: r.Path}}
+	if r.NoAuthority {
+		fs = []h2wire.HF{{Name: ":method", Value: m}, {Name: ":scheme", Value: sch}, {Name: ":path", Value: r.Path}, {Name: "host", Value: r.Host}}
+	}
 	for _, l := range r.Lines {
 		fs = append(fs, h2wire.HF{Name: asciiLower(l[0]), Value: l[1]})
 	}
